@@ -25,6 +25,7 @@
 #include <unordered_set>
 #include <vector>
 #include <unistd.h>
+#include <sys/wait.h>
 
 #include "yshim.h"
 
@@ -367,6 +368,9 @@ struct FixedCase
 {
   std::string name;
   std::function<std::string(CaseInfo&)> run;
+  // non-empty: run in a forked child; if the child dies (assert, sanitizer, signal)
+  // the outcome is this known-finding signature when it is listed, a failure otherwise
+  std::string crash_sig;
 };
 std::vector<FixedCase> fixed_cases();
 
@@ -432,7 +436,29 @@ static int run_fixed(const std::string& only)
     if (!only.empty() && fc.name != only)
       continue;
     CaseInfo ci;
-    std::string msg = fc.run(ci);
+    std::string msg;
+    if (!fc.crash_sig.empty())
+    {
+      fflush(stdout);
+      pid_t pid = fork();
+      if (pid == 0)
+      {
+        std::string m = fc.run(ci);
+        _exit(m.empty() ? 0 : 3);
+      }
+      int st = 0;
+      waitpid(pid, &st, 0);
+      if (WIFEXITED(st) && WEXITSTATUS(st) == 0)
+        msg = "";
+      else if (WIFEXITED(st) && WEXITSTATUS(st) == 3)
+        msg = "fixed case reported a property failure (run without isolation for details)";
+      else if (is_known(fc.crash_sig))
+        ci.known.push_back(fc.crash_sig);
+      else
+        msg = strf("child died (status 0x%x): crash / assertion / sanitizer report", st);
+    }
+    else
+      msg = fc.run(ci);
     for (auto& k : ci.known) printf("KNOWN %s\n", k.c_str());
     if (msg.empty())
       printf("FIXED %s PASS\n", fc.name.c_str());
